@@ -5,7 +5,7 @@ from esrally import exceptions, metrics, track
 from esrally.client import context as client_context
 from esrally.driver import driver, runner, scheduler
 
-from harness.common import concrete
+from harness.common import accessor, concrete
 from harness.execenv import Client, Clock, StubRunner, drive
 from symx import core
 from symx.core import fresh_bool, fresh_int, fresh_real, implies, observe, s_and, s_or, shadowed
@@ -533,6 +533,23 @@ def target_throughput(sl):
                 observe("both target-interval and target-throughput rejected", False)
             except exceptions.InvalidSyntax:
                 observe("both target-interval and target-throughput rejected", True)
+        elif mode == "rewritten":
+            # the task spec may be rewritten after the target has been looked at once (test mode does: it reads the target and then replaces
+            # it by an effectively unthrottled one); what is scheduled - and pickled to the workers - is the spec as it is then
+            t = track.Task("t", track.Operation("op", "bulk"), params={"target-throughput": v})
+            first = t.target_throughput
+            v2 = fresh_real("v_after_the_rewrite", 0)
+            core.assume(v2 > 0)
+            if bool(fresh_bool("rewritten_to_an_interval")):
+                del t.params["target-throughput"]
+                t.params["target-interval"] = v2
+                tt = t.target_throughput
+                observe("the target follows the task spec: interval after the rewrite", tt is not None and bool(tt.value * v2 == 1))
+            else:
+                t.params["target-throughput"] = v2
+                tt = t.target_throughput
+                observe("the target follows the task spec: value after the rewrite", tt is not None and bool(tt.value == v2))
+            observe("(the first look saw the first value)", first is not None and bool(first.value == v))
         else:
             t = track.Task("t", track.Operation("op", "bulk"), params={})
             observe("no target => None (unthrottled)", t.target_throughput is None)
@@ -577,9 +594,9 @@ def _c04_real_scheduler(sl):
     return c04.real_scheduler(sl)
 
 
-READS = [driver.schedule_for, driver.requires_time_period_schedule, driver.ScheduleHandle.__call__, driver.ScheduleHandle.ramp_up_wait_time.fget,
+READS = [driver.schedule_for, driver.requires_time_period_schedule, driver.ScheduleHandle.__call__, accessor(driver.ScheduleHandle.ramp_up_wait_time),
          driver.IterationBased, driver.TimePeriodBased, scheduler.scheduler_for, scheduler.run_unthrottled, scheduler.UnitAwareScheduler.after_request,
-         scheduler.DeterministicScheduler, scheduler.PoissonScheduler, scheduler.Unthrottled, track.Task.target_throughput.fget,
+         scheduler.DeterministicScheduler, scheduler.PoissonScheduler, scheduler.Unthrottled, accessor(track.Task.target_throughput),
          driver.AsyncExecutor.__call__]
 CLK = ["clock: time.perf_counter inside esrally.driver.driver (each read = previous + fresh d >= 0)"]
 ASSUME = ["floats modelled as exact reals (model R)"]
@@ -599,7 +616,7 @@ HARNESSES = [
             real_valued=True, doc="poisson schedule: monotone scheduled times, right rate (distribution shape not judged)"),
     Harness("ramp_up", ramp_up, "symbolic", lambda tier: [{}], reads=READS, bounds={"clients": "unbounded"}, assumptions=ASSUME, real_valued=True,
             doc="ramp-up wait == ramp*i/total"),
-    Harness("ramp_up_allocated", ramp_up_allocated, "symbolic", lambda tier: [{}], reads=READS + [driver.Allocator.allocations.fget],
+    Harness("ramp_up_allocated", ramp_up_allocated, "symbolic", lambda tier: [{}], reads=READS + [accessor(driver.Allocator.allocations)],
             bounds={"clients": "1..4 for the ramped-up element (task or parallel of single-client tasks) and for another task before or after it", "ramp-up": "symbolic real > 0"},
             assumptions=ASSUME, real_valued=True, doc="ramp-up total is the element's own client count as allocated by the real Allocator"),
     Harness("target_throughput_strings", target_throughput_strings, "bounded-exhaustive", lambda tier: [{}], reads=READS,
@@ -616,7 +633,7 @@ HARNESSES = [
             real_valued=True, doc="parameter source ends an infinite schedule"),
     Harness("looped_bulk_progress", looped_bulk_progress, "bounded-exhaustive", lambda tier: [{}],
             reads=READS + [__import__("esrally.track.params", fromlist=["x"]).PartitionBulkIndexParamSource.params,
-                           __import__("esrally.track.params", fromlist=["x"]).PartitionBulkIndexParamSource.percent_completed.fget],
+                           accessor(__import__("esrally.track.params", fromlist=["x"]).PartitionBulkIndexParamSource.percent_completed)],
             stubs=["io.MmapSource replaced by the in-memory source of C03"], bounds={"documents": "2..4", "bulk size": "1..2", "requests": "more than two rounds through the corpus"},
             doc="progress reported by the real looped bulk parameter source through the real schedule generator"),
     Harness("generator_time", generator_time, "symbolic", lambda tier: [{"steps": 3 if tier == "quick" else 5}], reads=READS, stubs=CLK,
@@ -630,6 +647,6 @@ HARNESSES = [
             stubs=["runner registry lookup (runner_for) returns a stub runner", "parameter source (finite/infinite flag)"],
             bounds={"fields": "every combination of present/absent warm-up/iterations/time periods allowed by the loader", "values": "unbounded integers"},
             doc="schedule_for chooses the loop control the task spec asks for"),
-    Harness("target_throughput", target_throughput, "symbolic", lambda tier: [{"mode": m} for m in ("throughput", "interval", "both", "none")], reads=READS,
+    Harness("target_throughput", target_throughput, "symbolic", lambda tier: [{"mode": m} for m in ("throughput", "interval", "both", "none", "rewritten")], reads=READS,
             assumptions=ASSUME, real_valued=True, doc="numeric target-throughput / target-interval"),
 ]
